@@ -71,6 +71,10 @@ def cases(tier, seed):
     for i, la in enumerate(LOOKALIKES):
         for role in (('server', 'client') if tier == 'thorough' else (['server', 'client'][i % 2],)):
             cs.append({'kind': 'combo', 'role': role, 'marker': ['none', 'other'][i % 2], 'cha': rng.sample(cha, 1), 'cbc': rng.sample(cbc, 1), 'etm': rng.sample(etm, 1), 'render': ['text', 'json'][(i // 2) % 2], 'seed': rng.randrange(1 << 30), 'lookalike': la})
+    # unknown cipher names that merely END in the one name the published rule lists by equality (rijndael-cbc@lysator.liu.se), or contain a CBC suffix in the middle: not CBC ciphers of the rule, so ETM MACs beside them are not exposed
+    for i, xe in enumerate(['cascade-rijndael-cbc@lysator.liu.se', 'x-rijndael-cbc@lysator.liu.se', 'aes128-cbc@openssh.org.example', 'aes256-cbc@ssh.com.example', 'aes128-cbcx', 'rijndael-cbc@lysator.liu.se.example']):
+        for marker in (('none', 'own') if tier == 'thorough' else (['none', 'own'][i % 2],)):
+            cs.append({'kind': 'combo', 'role': ['server', 'client'][i % 2], 'marker': marker, 'cha': [], 'cbc': [], 'etm': rng.sample(etm, 1 + i % 2), 'render': ['text', 'json'][(i // 2) % 2], 'seed': rng.randrange(1 << 30), 'extra_enc': xe})
     # the connection-rate check runs as well (everything else here skips it): its note lands in the same list as the strict-kex advisory
     for marker in ('own', 'none'):
         for rnd in ('text', 'json'):
@@ -180,7 +184,7 @@ def run_case(c):
     rng.shuffle(kex)
     fill_enc = rng.sample([n for n in names['enc'] if not is_shape(n)], rng.randint(1, 3))
     fill_mac = rng.sample([n for n in names['mac'] if not is_shape(n)], rng.randint(1, 3))
-    enc = fill_enc + c['cha'] + c['cbc']
+    enc = fill_enc + c['cha'] + c['cbc'] + ([c['extra_enc']] if c.get('extra_enc') else [])
     mac = fill_mac + c['etm'] + (c['cha'] if c.get('cross') else [])
     rng.shuffle(enc)
     rng.shuffle(mac)
